@@ -1836,6 +1836,8 @@ dt_dtcmp(struct dt_dt_s d1, struct dt_dt_s d2)
 	case DT_BIZDA:
 	case DT_YWD:
 	case DT_YD:
+	case DT_LDN:
+	case DT_MDN:
 		/* use arithmetic comparison */
 		if (d1.d.u < d2.d.u) {
 			return -1;
@@ -1845,6 +1847,14 @@ dt_dtcmp(struct dt_dt_s d1, struct dt_dt_s d2)
 			/* means they're equal, so try the time part */
 			goto try_time;
 		}
+	case DT_JDN:
+		/* julian day numbers are floats */
+		if (d1.d.jdn < d2.d.jdn) {
+			return -1;
+		} else if (d1.d.jdn > d2.d.jdn) {
+			return 1;
+		}
+		goto try_time;
 	case DT_YMCW:
 		/* use designated thing since ymcw dates aren't
 		 * increasing */
